@@ -1303,6 +1303,10 @@ class Message(ABC):
 
         # Got some data over the wire
         self._serialized_on_wire = True
+        if size == 0:
+            # An empty message has no fields; do not read into whatever
+            # follows it in the stream.
+            return self
         proto_meta = self._betterproto
         read = 0
         for parsed in load_fields(stream):
